@@ -27,6 +27,11 @@ class Body(object):
         self._content_data = None
 
     def __getattr__(self, key):
+        if key == 'file':
+            # Not set yet: the instance is being copied or unpickled.
+            # Looking it up on itself again would recurse forever.
+            raise AttributeError(key)
+
         return getattr(self.file, key)
 
     def content(self):
